@@ -22,15 +22,37 @@ Monitors / oracles (every one counts its evaluations):
   continuity      p, dp, ddp, cs^2 (and e, w, de) at TMin/TMax of each phase:
                   |f(T_b(1 -+ 4 eps)) - f(T_b)| <= slope*8 eps*T_b + 1e-12 |f|
   exact_p/dp      inside the range, on tables that satisfy P_trace: p against
-                  -V(closed-form minimum), dp against the closed form; tolerance
-                  K*(rTol|V| + interpolation error of this knot set on the closed form)
+                  -V(closed-form minimum), dp against the closed form.  Tolerance = K=10 x
+                  the *documented* accuracy model evaluated for the case (c10_exact.
+                  SplineErrorModel): rTol|V| + 5/384 h^4 M4 for p, 1/24 h^3 M4 for dp, with
+                  h the largest table step, M4 the closed-form |d4V/dT4| near T, plus the
+                  rows' own noise over the median step.  ddp is recorded against 3/8 h^2 M4
+                  but not judged (the property does not state it).
+                  Observed on regular tables (5 quick + 2 thorough seeds): p <= 0.05 tol,
+                  dp <= 0.58 tol (p99 0.04), ddp <= 6.5 model (p99 0.034).
   alpha_exact     alpha(T_n) (and a few other T inside both ranges) against its closed
-                  form, tolerance propagated from the same error model
+                  form, tolerance propagated through alpha from the same error model
   contract        icontract postcondition on Thermodynamics.setExtrapolate (continuity +
                   range attributes), evaluated every time the real code calls it
 P_trace (C11's subject) is decided per phase with the closed-form existence interval and
 branch; a hopped table is "inadmissible(P_trace)" and nothing of that phase is judged; a
-table on its branch but off the minimum only loses the closed-form oracles.
+table on its branch but off the minimum only loses the closed-form oracles.  A phase whose
+closed-form EOS is unphysical at a range end (dp <= 0 or cs^2 outside (0.01,1)) is
+inadmissible too (mu = 1 + 1/cs^2 presupposes it).  Points where a*T^mu is formed from
+factors that over/underflow individually ((|mu|+2) max|ln T| > 600; python's float pow
+raises OverflowError there) are counted, not judged.
+
+Mechanism names: identity-*, dp/ddp-not-derivative-of-p:<phase>:<region>,
+discontinuous-<f>:<phase>:<end>, contract:setExtrapolate-discontinuous-<f>:..,
+pressure-not-minus-potential-at-minimum:<phase>, dp-off-closed-form:<phase>,
+alpha-off-closed-form[-at-Tn], setExtrapolate-raises / -not-idempotent,
+thermo-function-raises/non-finite:.., extrapolation-coefficient-factors-overflow, and
+  near-coincident-table-abscissae-corrupt-derivatives   closed-form mismatch of dp / alpha
+      on a table whose two closest abscissae are < 1e-6 median steps apart at a *requested*
+      end: tracePhase's RK45 lands on t_bound with a remainder step of ~1e-13 dT when the
+      end is an integer number of steps from T_n, and the spline through the coincident
+      pair amplifies rounding noise (observed: dp off by 1e-4..7e-2, cs^2(T_b) -0.19 / 0.002
+      instead of 0.32 / 0.25, mu = -4 or 472, NaN extrapolation).
 """
 from __future__ import annotations
 
@@ -47,9 +69,10 @@ from wgverif.oracles import c10_exact as EX
 PROPERTY = "C10"
 RULE = ("zoo potentials poly1/poly2/bag1 with random parameters (physical at T_n: dp>0, "
         "0<cs^2<1 in both phases), random unit factor 1e-2..1e2, random T_n; route 'direct' "
-        "(explicit ranges inside the existence interval or past a spinodal, dT 4e-4..4e-3 T_n, "
-        "rTol in {1e-5,1e-6,1e-8}, paranoid on/off, first step None/0.1, exact or 1%-perturbed "
-        "phase guesses) or 'manager' (phaseTracerTol in {1e-5,1e-6,1e-7}, tmin/tmax "
+        "(explicit ranges inside the existence interval or past a spinodal, 20 % with both ends "
+        "an integer number of steps from T_n ('round numbers'), dT 4e-4..4e-3 T_n, "
+        "rTol in {1e-5,1e-6,1e-8}, paranoid on/off, first step None/0.1 dT, exact or "
+        "1%-perturbed phase guesses) or 'manager' (phaseTracerTol in {1e-5,1e-6,1e-7}, tmin/tmax "
         "{0.8,0.9}/{1.2,1.1}); temperatures as in the module docstring.  Non-trivial: a "
         "(case, phase, region) whose table passed P_trace(no hop) and in which at least one "
         "oracle was decided; regions are below / TMin / inside / TMax / above; distinct by "
@@ -63,6 +86,8 @@ ASSUMPTIONS = [
     "free-energy excess <= 10*rTol*|V| (value-level reading, DESIGN 2.3-5)",
     "outside the range the reported pressure is assumed to be a power law plus constant "
     "(the documented template-model form) when its derivatives are recovered from three samples",
+    "the closed-form EOS of a judged phase is physical at both range ends (dp>0, 0.01<cs^2<1)",
+    "extrapolated points whose power-law factors over/underflow individually are not judged",
 ]
 CASE_TIMEOUT = 900
 CHUNK = 1
@@ -398,8 +423,10 @@ def cubic_fit_derivatives(pfun, T, a, b):
     qmax = float(np.max(np.abs(q)))
     resid = float(np.max(np.abs(NP.polyval(CHEB6, c) - q)))
     # data rounding 2 eps|p| (spline evaluation) amplified by the Markov factors of a cubic
-    # on [-1,1] (9 and 24) and the least-squares conditioning (<= 4): C = 2*9*4, 2*24*4
-    return dp, ddp, 72 * EPS * qmax / half, 192 * EPS * qmax / half ** 2, resid / (EPS * qmax)
+    # on [-1,1] (9 and 24) and the least-squares conditioning (<= 4): 2*9*4 and 2*24*4; the
+    # fit residual shows the data noise is up to ~6 eps|p| rather than 2, hence another
+    # factor 2 (observed with 72/192 over 1.4e6 points: max 0.43, p99 0.39 of the bound)
+    return dp, ddp, 144 * EPS * qmax / half, 384 * EPS * qmax / half ** 2, resid / (EPS * qmax)
 
 
 def power_law_derivatives(pfun, T, outward):
